@@ -235,6 +235,27 @@ let handle (toks : ostring list) : ostring =
   | ["V2B"; t; v] -> (match v2b (read_val v) (read_aty t) with Ok b -> "OK " ^ hex_of_bytes b | Raise e -> "RAISE " ^ exn_name e)
   | ["B2V"; t; h] -> (match bytes2val (bytes_of_hex h) (read_aty t) with Ok v -> "OK " ^ show_val v | Raise e -> "RAISE " ^ exn_name e)
   | ["NOMVAL"; t] -> (match nomval (read_aty t) with Ok v -> "OK " ^ show_val v | Raise e -> "RAISE " ^ exn_name e)
+  | ["WFTABLE"] ->
+      let rn = function RBadType -> "badtype" | RFlagType -> "flagtype" | RFlagsOverflow -> "flagsoverflow"
+        | RGroupSize -> "groupsize" | RVarGroup -> "vargroup" | RCHPlace -> "chplace" | RDupName -> "dupname"
+        | RCollide -> "collide" | RHPBase -> "hpbase" | RUnreachable -> "unreachable" | RNoClass -> "noclass" in
+      let fs = List.map (fun ((m, nm), r) -> Printf.sprintf "%d:%s:%s" (int_of_n m) (ostr nm) (rn r)) table_failures in
+      let nom = List.filter_map (fun (m, (nm, ds)) ->
+          if nominal_ok true ds && nominal_ok false ds then None else Some (Printf.sprintf "%d:%s:nominal" (int_of_n m) (ostr nm))) all_entries in
+      String.concat " " (List.sort_uniq compare (fs @ nom))
+  | ["MODETABLE"] ->
+      let bad want tab = List.filter_map (fun (nm, ds) -> if mode_entry_ok (n_of_int want) (nm, ds) then None else Some (Printf.sprintf "%d:%s" want (ostr nm))) tab in
+      String.concat " " (bad 1 payloads_set @ bad 2 payloads_poll)
+  | ["GETBITS"; h; m] ->
+      (match get_bits (bytes_of_hex h) (n_of_hex m) with
+       | None -> "LOOP" | Some (Ok v) -> "OK " ^ str_of_n v | Some (Raise e) -> "RAISE " ^ exn_name e)
+  | ["ATT2NAME"; a] -> ostr (att2name (cstr a))
+  | ["ATT2IDX"; a] ->
+      (match att2idx (cstr a) with IdxNone -> "0" | IdxOne k -> str_of_n k
+        | IdxMany l -> "(" ^ String.concat "," (List.map str_of_n l) ^ ")")
+  | ["SPHP"; v; sc] ->
+      (match val2sphp (b64_of_bits (z_of_str v)) (b64_of_bits (z_of_str sc)) with
+       | Ok (a, b) -> "OK " ^ str_of_z a ^ " " ^ str_of_z b | Raise e -> "RAISE " ^ exn_name e)
   | ["ROUND"; nd; f] -> (match py_round_nd (z_of_str nd) (b64_of_bits (z_of_str f)) with Ok r -> "OK " ^ show_float r | Raise e -> "RAISE " ^ exn_name e)
   | ["FMUL"; a; b] -> show_float (fmul (b64_of_bits (z_of_str a)) (b64_of_bits (z_of_str b)))
   | ["FADD"; a; b] -> show_float (fadd (b64_of_bits (z_of_str a)) (b64_of_bits (z_of_str b)))
